@@ -14,9 +14,23 @@
    or is parked, and reports len(ScheduleCh) and the number of parked goroutines after
    every operation; ODrain (and OTick / OTickAll before they fire) receives until every
    started job has returned and the channel is empty and reports the strings received. *)
-From Verif Require Import Common C11_Model C11_Spec.
+From Verif Require Import Common C11_Model C11_Spec C11_Hm C11_HmSpec.
 
-Definition case := (input * list obs)%type.
+(* two case classes.
+   CCtl: real ScheduleBindingsControllers sharing one real scheduleManager; a firing is handed
+     to every controller by the harness (CanHandleEvent, then HandleEvent).
+   COp: the REAL operator assembled around a fake cluster (VerifAssemble): hook files answering
+     --config loaded by the real hook.Manager.Init, the real bootstrapMainQueue; OEnable h = the
+     queued EnableScheduleBindings task of hook h is handled by the operator's real task handler,
+     ODisable h = hook h's HookController.DisableScheduleBindings; every string the harness
+     receives from the schedule channel (or is told to hand over: OFire) goes to the schedule
+     event handler the operator registered with its ManagerEventsHandler (operator.go:163-191),
+     which calls the real hook.Manager.HandleScheduleEvent; the tasks it returns are observed
+     ([h_tasks]).  The controllers' own answers ([o_fire]) are asked as well, through
+     HookController.CanHandleScheduleEvent / HandleScheduleEvent. *)
+Inductive case :=
+| CCtl (c : input * list obs)
+| COp (c : input * list hobs).
 
 (* short constructors for the generated files *)
 Definition Bd := mkB.
@@ -58,9 +72,29 @@ Definition obs_eqb (a b : obs) : bool :=
   && ct_perm (o_recv a) (o_recv b)
   && N.eqb (o_chlen a) (o_chlen b) && N.eqb (o_parked a) (o_parked b).
 
-Definition model_obs (c : case) : list obs := run_model (fst c).
-Definition agrees (c : case) : bool := list_eqb obs_eqb (model_obs c) (snd c).
+(* tasks: a multiset (map order within a hook, arrival order of coinciding firings); when at
+   most one string was handled the hooks come in the order of their paths *)
+Definition Tk := mkSTask.
+Definition hobs_eqb (a b : hobs) : bool :=
+  obs_eqb (h_obs a) (h_obs b)
+  && is_tperm (h_tasks a) (h_tasks b)
+  && (negb (Nat.leb (length (o_recv (h_obs a))) 1)
+      || list_eqb N.eqb (map st_hook (h_tasks a)) (map st_hook (h_tasks b))).
+
+Definition model_obs (c : case) : list obs + list hobs :=
+  match c with
+  | CCtl c => inl (run_model (fst c))
+  | COp c => inr (run_hm (fst c))
+  end.
+Definition agrees (c : case) : bool :=
+  match c with
+  | CCtl c => list_eqb obs_eqb (run_model (fst c)) (snd c)
+  | COp c => list_eqb hobs_eqb (run_hm (fst c)) (snd c)
+  end.
 
 Definition mismatches (cs : list case) : list N := indices_where (fun c => negb (agrees c)) cs.
 Definition spec_violations (cs : list case) : list N :=
-  indices_where (fun c => negb (P (fst c) (snd c))) cs.
+  indices_where (fun c => negb (match c with
+                                | CCtl c => P (fst c) (snd c)
+                                | COp c => P_hm (fst c) (snd c)
+                                end)) cs.
